@@ -18,6 +18,11 @@ _Box__reciprocal_vects, if set, must be inv(vects).T (CBox.Coherent of Proofs/C0
 (3) aliasing — arrays given to setters / handed out by getters are overwritten afterwards; (4) exact construction
 clause; (5) more containers (empty, (3,3), strided, Fortran) and near-face distances log-uniform 1e-13..1e-3.
 The driver's state is the model *object* CBox (cell + cached reciprocal vectors).
+
+Third round: numeric types of the arguments (typed_kw / assign_types / _search_types), sign patterns of the diagonal of
+lower-triangular cells and refusal of each LAMMPS getter (_search_sign_patterns), units of length up to 2^+-500 with the
+oracle evaluated on the exactly rescaled cell (_search_scales, gen_scale_exp), exact half-space tests face by face
+(_exact_faces), float32 / very large point arrays (_oracle_bulk), the inclusivity flag positionally / as 0, 1, numpy bool.
 """
 from __future__ import annotations
 
@@ -78,9 +83,20 @@ RULE = ('scenarios = op sequences on one Box object: construct via vects | avect
         'through every family x {set, set_*, positional} x {with, without origin}, set(), origin alone, vects alone; definitions '
         'outside the supported range (refused => object unchanged, accepted => finite state); left-handed cells in the clause '
         'oracle; arguments unmodified, reads do not write, a second live Box does not interfere; Box.set keyword-name sets '
-        '(documented sets x optional subsets, missing / foreign / unknown keywords, two families at once). distinct = distinct canonical driver '
+        '(documented sets x optional subsets, missing / foreign / unknown keywords, two families at once). Third round: the numeric TYPE '
+        'of every argument varied within one call (python int / float, numpy int64 / int32 / int16 / float32 / float64 scalars, 0-d arrays; '
+        'int / float / mixed lists, tuples, int / float32 arrays for vectors) in every combination of integer-typed lengths with '
+        'non-integer float tilts; lower-triangular cells with every sign pattern of the diagonal (each LAMMPS getter must refuse unless '
+        'all three are positive); the unit of length swept over 2^-500 .. 2^500 (each clause wherever its quantities are doubles: squares to '
+        '2^+-500, volume to 2^+-330, plane normals to 2^+-235), the oracle evaluated on the exactly rescaled cell; half-space tests exact '
+        'face by face (axis-parallel normals on the grid); float32 point arrays; arrays of 10^3 .. 1.3*10^5 points against the same points in '
+        'a small array; the inclusivity flag positionally and as 0 / 1 / numpy bool. distinct = distinct canonical driver '
         'line in its scenario context; non-trivial = cell differs from the unit cell or origin != 0')
 ASSUMPTIONS = [
+    'a clause is evaluated only where the quantities of its own definition are finite normal doubles (lengths and their squares: '
+    'cell edges 2^-500 .. 2^500; volume = third power: 2^-330 .. 2^330; unit plane normals of inside/outside = fourth power under a '
+    'root: 2^-235 .. 2^235); beyond that the unchanged code overflows too, which is not counted against it',
+    'single-precision arguments of set_abc (numpy computes their cosines / products in float32) are outside the rounding bound checked',
     'IEEE double rounding of the implementation is bounded by 1e3 * 2^-52 * cond(vects) * scale on the generated inputs; '
     'on the dyadic grid (multiples of 1/8, |.| <= 8) construction, LAMMPS getters, volume and relative->Cartesian are exact',
     'numpy cos / sqrt / arccos / linalg.inv / linalg.norm / dot / inner / cross compute the mathematical functions to '
@@ -2581,6 +2597,9 @@ def _oracle_box(ctx, box, spec, pts, rels, viol, after_mutation=False, light=Fal
                 viol(f'getter:{nm}', f'{nm} = {got!r}, the vectors/origin give {float(w)!r} (vects {box.vects.tolist()}, origin '
                      f'{box.origin.tolist()}){tag}')
 
+    if light == 'construct':      # only the construction and getter clauses were asked for (numeric-type matrix)
+        return
+
     # -- rebuild through every other parameter set -----------------------------------------------------
     if not light:
         _oracle_rebuild(ctx, box, V, o, det, normal, cond, vmax, viol, tag, left)
@@ -2590,10 +2609,15 @@ def _oracle_box(ctx, box, spec, pts, rels, viol, after_mutation=False, light=Fal
 
     # -- reciprocal vectors dual to the cell vectors (also catches a stale cache) -----------------------
     try:
-        R = [[_F(x) for x in row] for row in box.reciprocal_vects]
+        Rf = np.array(box.reciprocal_vects, dtype=float)
     except Exception as e:  # noqa
-        viol('recip:raises', f'reciprocal_vects raised {type(e).__name__}: {e}{tag}')
+        viol('recip:raises', f'reciprocal_vects raised {type(e).__name__}: {e} for vects {box.vects.tolist()}{tag}')
         return
+    if Rf.shape != (3, 3) or not np.isfinite(Rf).all():
+        viol('recip:non-finite', f'reciprocal_vects = {Rf.tolist()} for the non-degenerate cell {box.vects.tolist()} (the entries of its inverse '
+             f'are of order 2^{-e}){tag}')
+        return
+    R = [[_F(x) for x in row] for row in Rf]
     rmax = max(abs(float(x)) for r in R for x in r)
     dual_tol = SAFETY * U * cond * 3
     for i in range(3):
@@ -2619,7 +2643,7 @@ def _oracle_box(ctx, box, spec, pts, rels, viol, after_mutation=False, light=Fal
     pick = int(math.fmod(abs(pts[0][0]) * 8 + abs(pts[0][1]) * 64, 1000.0)) if pts else 0       # a function of the input only (replayable)
     # the same for single precision: the float32 neighbours of the points, handed over as a float32 array
     f32 = lambda x: float(np.float32(x))                                  # noqa: E731
-    if all(abs(x) < 1e30 and (x == 0 or abs(x) > 1e-30) for p in pts + rels for x in p):
+    if (not light or pick % 3 == 0) and all(abs(x) < 1e30 and (x == 0 or abs(x) > 1e-30) for p in pts + rels for x in p):
         fpts, frels = [[f32(x) for x in p] for p in pts], [[f32(x) for x in p] for p in rels]
         _oracle_points(ctx, box, V, o, Vinv, cond, vmax, rmax, fpts, frels, 'f32-array', viol, tag, spec, left or no_inside)
     if (not light and pick % 6 == 0) or pick % 60 == 0:
@@ -3015,8 +3039,17 @@ def _oracle_points(ctx, box, V, o, Vinv, cond, vmax, rmax, pts, rels, vname, vio
         dflt = incl and vname in ('array2', 'list', 'single-list', 'single-array', 'int-array', 'int-single', 'empty')
         ins_default = call('inside', box.inside, arg) if dflt else ins
         outs_default = call('outside', box.outside, arg) if dflt else outs
-        if ins is None or outs is None or ins_default is None or outs_default is None:
+        # the flag as second positional argument, and as 0 / 1 / numpy bool instead of a python bool
+        flagged = vname in ('array2', 'tuple', 'single-tuple', 'array3', 'int-list', 'f32-array')
+        ins_flag = call('inside', lambda a: box.inside(a, np.bool_(incl) if vname in ('array2', 'int-list') else int(incl)), arg) if flagged else ins
+        outs_flag = call('outside', lambda a: box.outside(a, int(not incl) if vname in ('array2', 'array3') else np.bool_(not incl)), arg) if flagged else outs
+        if ins is None or outs is None or ins_default is None or outs_default is None or ins_flag is None or outs_flag is None:
             break
+        if flagged and not (np.array_equal(ins_flag, ins) and np.array_equal(outs_flag, outs)):
+            viol('inside:positional-flag', f'inside(pos, flag) / outside(pos, flag) with the inclusivity as second positional argument given as '
+                 f'0 / 1 / numpy.bool_ differ from inside(pos, inclusive={incl}) / outside(pos, inclusive={not incl}): '
+                 f'{ins_flag.tolist()!r} vs {ins.tolist()!r}, {outs_flag.tolist()!r} vs {outs.tolist()!r} for {_show(arg)} ({_state_repr(box)}){tag}',
+                 variant=vname)
         if ins.shape != want_shape or outs.shape != want_shape:
             viol('inside:shape', f'inside/outside: points of leading shape {want_shape} give result shapes {ins.shape}/{outs.shape}',
                  variant=vname)
@@ -3152,7 +3185,7 @@ def _place(rng, spec, regime, n):
     tmp = apply_spec(am.Box() if spec.get('via') not in ('ctor', 'family') else None, spec)
     V, o = _fmat(tmp)
     if _det3(V) == 0:
-        raise ValueError('singular cell generated')
+        raise ValueError(f'the Box built from it has a singular cell: vects {tmp.vects.tolist()}')
     pts = gen_points(rng, V, o, regime, n)
     rels = [[(_dy(rng, -2, 2) if regime == 'grid' else rng.uniform(-2, 2)) for _ in range(3)] for _ in range(n)]
     return pts, rels
@@ -3318,7 +3351,7 @@ def _search_types(ctx, rng, n):
                         only = only + ['origin']
                     assign_types(rng, spec, cls=c, vcls=vc or rng.choice(INT_VECTORS + ['floats']), only=only)
                     ctx.stats.case('oracle:types', (kind, c or vc, mask, it), sample={'spec': _short(spec)})
-                    _run_cell(ctx, spec, [[0.25, 0.5, 0.75]], [[0.25, 0.5, 0.75]], [], light=True)
+                    _run_cell(ctx, spec, [[0.25, 0.5, 0.75]], [[0.25, 0.5, 0.75]], [], light=('construct' if mask != 7 else True))
 
 
 def search(ctx, broken):
@@ -3436,7 +3469,7 @@ def replay(ctx, payload):
         muts = [dict(m, regime=m.get('regime', 'float')) for m in r.get('mutations', [])]
         print('replay cell', spec)
         _run_cell(ctx, spec, r['points'] or [[0.25, 0.5, 0.75]], r['rels'] or [[0.25, 0.5, 0.75]], muts,
-                  light=bool(r.get('light')), check_base=bool(r.get('check_base', True)))
+                  light=r.get('light') or False, check_base=bool(r.get('check_base', True)))
         for v in ctx.violations:
             print('  still fails:', v.what[:300])
         if not ctx.violations:
@@ -3459,7 +3492,10 @@ MANIFEST = {
             'reports for every call sequence what the cache-free cell reports; every cell-defining call gives the cell (vectors and '
             'origin, default (0,0,0)) a new Box() given the same definition has, whatever the object was before, a refused call '
             'changes nothing, origin alone keeps the vectors, set() is the unit cell; Box.set(**kw) accepts exactly the documented '
-            'keyword sets (sound and complete), set_* parameter order as documented. Angle/length read-back is proved in cosine/squared form; the '
+            'keyword sets (sound and complete), set_* parameter order as documented; the same cell in another unit of length: squares x s^2, '
+            'volume x |s|^3, reciprocal vectors / s, cosines of the angles, relative coordinates, is_lammps_norm (s>0) and inside/outside '
+            'unchanged; LAMMPS getters handed out iff upper triangle zero and all three diagonal entries positive, two LAMMPS-normal cells '
+            'with equal Gram matrix are equal, a LAMMPS cell turned by 180 degrees is right-handed with the same Gram matrix but not normal. Angle/length read-back is proved in cosine/squared form; the '
             'cos/sqrt/arccos wrappers and float rounding are partial (assumed, compared numerically).',
     'note': 'Trusted: Lean kernel + propext/Classical.choice/Quot.sound; the hand-written model is tied to atomman.Box by a '
             'state-machine correspondence on exact rational inputs (incl. chains of one-ulp..1e-4 changes on warm objects; exact on the dyadic grid, 1e3*2^-52*cond*scale elsewhere, '
